@@ -77,3 +77,74 @@ def box(payload):
                                     "detail": f"{cls.__name__} head={act_fn} training={training}: action[{i[0]},{i[1]}]={a[i[0], i[1]]} outside [{bx.low[i[1]]}, {bx.high[i[1]]}]",
                                     "input": dict(algo=cls.__name__, head=act_fn, training=training)}
     return {"status": "pass", "cases": cases}
+
+
+def _ma_agents(discrete):
+    from gymnasium import spaces
+    from agilerl.algorithms.maddpg import MADDPG
+    from agilerl.algorithms.matd3 import MATD3
+    obs_spaces = [spaces.Box(-1, 1, (4,)) for _ in range(2)]
+    out = []
+    if discrete:
+        acts = [[spaces.Discrete(3), spaces.Discrete(3)], [spaces.Discrete(2), spaces.Discrete(4)]]
+    else:
+        acts = [[spaces.Box(low=np.array([-2, -0.5], dtype=np.float32), high=np.array([2, 0.5], dtype=np.float32))] * 2,
+                [spaces.Box(low=np.array([-1, -3, 0], dtype=np.float32) - 0.0, high=np.array([1, 3, 0.25], dtype=np.float32)),
+                 spaces.Box(-1, 1, (2,))],
+                [spaces.Box(0, 1, (1,)), spaces.Box(low=np.array([-0.1, -5], dtype=np.float32), high=np.array([0.1, 5], dtype=np.float32))]]
+    for sp in acts:
+        for cls in (MADDPG, MATD3):
+            try:
+                out.append((cls.__name__, sp, cls(observation_spaces=obs_spaces, action_spaces=sp, agent_ids=["a_0", "b_0"], expl_noise=5.0, O_U_noise=False)))
+            except AssertionError:
+                continue          # the constructor rejects bounds whose first component is not (<= 0, > 0)
+    return out
+
+
+def ma_box(payload):
+    """MADDPG / MATD3 with per-dimension Box bounds: every returned action must lie inside its own space, with and without
+    exploration noise (large noise so that the clamp decides)."""
+    cases = 0
+    torch.manual_seed(payload.get("seed", 0))
+    obs = {"a_0": np.zeros((3, 4), dtype=np.float32), "b_0": np.ones((3, 4), dtype=np.float32)}
+    for name, sp, agent in _ma_agents(False):
+        for training in (True, False):
+            for _ in range(6):
+                act, _d = agent.get_action(obs, training=training)
+                cases += 1
+                for k, (aid, a) in enumerate(act.items()):
+                    a = np.asarray(a)
+                    if a.shape != (3,) + sp[k].shape:
+                        return {"status": "fail", "cases": cases, "detail": f"{name}: action batch shape {a.shape} for 3 observations of {sp[k]}"}
+                    for row in a:
+                        if not (np.all(row >= sp[k].low - 1e-6) and np.all(row <= sp[k].high + 1e-6)):
+                            return {"status": "fail", "cases": cases, "witness_key": "ma-box-first-dim",
+                                    "detail": f"{name}.get_action(training={training}) agent {aid}: action {row.tolist()} outside low={sp[k].low.tolist()} high={sp[k].high.tolist()}",
+                                    "input": {"low": sp[k].low.tolist(), "high": sp[k].high.tolist(), "training": training}}
+    return {"status": "pass", "cases": cases}
+
+
+def ma_discrete(payload):
+    """MADDPG / MATD3 with Discrete actions: returned indices are in range and never masked, for every mask with a legal action."""
+    cases = 0
+    torch.manual_seed(payload.get("seed", 0))
+    obs = {"a_0": np.zeros((2, 4), dtype=np.float32), "b_0": np.ones((2, 4), dtype=np.float32)}
+    for name, sp, agent in _ma_agents(True):
+        ns = [s.n for s in sp]
+        for m0 in itertools.product([0, 1], repeat=ns[0]):
+            for m1 in itertools.product([0, 1], repeat=ns[1]):
+                if not any(m0) or not any(m1):
+                    continue
+                infos = {"a_0": {"action_mask": np.array([m0, m0])}, "b_0": {"action_mask": np.array([m1, m1])}}
+                for training in (True, False):
+                    _c, disc = agent.get_action(obs, training=training, infos=infos)
+                    cases += 1
+                    for aid, mask, n in (("a_0", m0, ns[0]), ("b_0", m1, ns[1])):
+                        d = np.asarray(disc[aid]).reshape(-1)
+                        if d.shape[0] != 2:
+                            return {"status": "fail", "cases": cases, "detail": f"{name}: {d.shape[0]} actions for 2 observations"}
+                        for x in d:
+                            if not (0 <= int(x) < n) or mask[int(x)] == 0:
+                                return {"status": "fail", "cases": cases, "detail": f"{name} agent {aid}: mask {mask}, training={training}: returned masked action {int(x)}",
+                                        "input": {"mask": list(mask), "training": training}}
+    return {"status": "pass", "cases": cases}
